@@ -198,6 +198,12 @@ def run_iface(ds, iface: str, split: str, *, shuffle: int, T: int, repeat: bool 
     pr = proc if process else None
     off = 100000 if process else 0
     kw = dict(split=split, repeat=repeat, shuffle=shuffle, **sel)
+    # the flag as the caller spells it: a Python bool, left out (the default is on), a NumPy boolean (`epochs > 1` on a NumPy integer), the integer 1
+    if isinstance(repeat, str):
+        if repeat == "default": del kw["repeat"]
+        elif repeat == "np": kw["repeat"] = sp.np.True_
+        elif repeat == "one": kw["repeat"] = 1
+        else: raise ValueError(repeat)
     def cut(it):
         out = []
         for e in it:
